@@ -281,6 +281,9 @@ func discSection(run *hx.Run, rng *hx.Rng) {
 	}
 	// 2a. every type byte with empty / tiny signed data (the short-payload sweep): sigdata lengths 1..8
 	for _, nc := range []bool{false, true} {
+		for k := 0; k < 3; k++ { // empty signed data: exactly headSize bytes with a valid hash and signature
+			c.dec(nc, c.signed(k, nil), "signed-short")
+		}
 		for t := 0; t < 256; t++ {
 			for l := 1; l <= 8; l++ {
 				if l > 2 && !(t >= 1 && t <= 4 || t >= 134 && t <= 137) && !run.Thorough() {
